@@ -33,6 +33,7 @@ type Ctx struct {
 	Shard    int
 	lastFail *ev.Failure
 	seq      atomic.Int64
+	cases    int
 }
 
 func (c *Ctx) Thorough() bool { return c.Tier == "thorough" }
@@ -97,6 +98,17 @@ func (c *Ctx) finish() {
 		c.Rep.Extra["budget_exhausted_shards"] = 1.0
 	}
 	_ = c.Rep.Write(filepath.Join(c.Out, "report.json"))
+}
+
+// rotateCache re-clones this shard's build cache from the base every 60 cases: the objects
+// of earlier scratch packages are never needed again.
+func (c *Ctx) rotateCache() {
+	c.cases++
+	gc, base := os.Getenv("VERIF_GOCACHE"), os.Getenv("VERIF_GOCACHE_BASE")
+	if c.cases%60 != 0 || gc == "" || base == "" {
+		return
+	}
+	_ = pipe.CloneCache(base, gc)
 }
 
 // Verdict is the outcome of checking one case.
@@ -200,6 +212,7 @@ func runProperty[C any](t *testing.T, id string, gen func(*rapid.T, *Ctx) C, che
 	rapid.Check(t, func(rt *rapid.T) {
 		cs := gen(rt, c)
 		c.Rep.Case()
+		c.rotateCache()
 		if c.OverBudget() {
 			c.Rep.Discard("budget")
 			return
